@@ -85,7 +85,7 @@ func ruleR13a(h *H) {
 		allowed := 0
 		for _, o := range origins {
 			class, why := classifyOrigin(o)
-			name := fmt.Sprintf("error origin %s of %s", o.Key(), ir.FuncName(fn))
+			name := fmt.Sprintf("error origin %s of kv.DB.ProcessWrite", o.Key())
 			switch class {
 			case "allowed":
 				allowed++
